@@ -10,6 +10,10 @@ mod c11_reassembly;
 mod c12_modcmp;
 mod c15_ipgen;
 mod codecs;
+mod sim;
+mod c05_link;
+mod c04_udp;
+mod ndl;
 mod tcb_bench;
 mod tcb_checks;
 
@@ -26,6 +30,8 @@ fn part(check: impl Check + 'static, quick: u64, thorough: u64) -> Part {
 
 fn parts_for(id: &str) -> Option<Vec<Part>> {
     Some(match id {
+        "C04" => vec![part(c04_udp::UdpDemux, 4_000, 300_000)],
+        "C05" => vec![part(c05_link::LinkLayer, 4_000, 300_000)],
         "C07" => vec![part(c07_message::MessageOps, 400_000, 8_000_000)],
         "C09" => vec![
             part(c09_iptable::TableHistories, 400_000, 6_000_000),
@@ -38,7 +44,8 @@ fn parts_for(id: &str) -> Option<Vec<Part>> {
         "C03" => vec![part(tcb_checks::OpenClose, 40_000, 3_000_000)],
         "C12" => vec![part(c12_modcmp::ModCmpLaws, 200_000, 4_000_000), part(tcb_checks::IsnIndependence, 20_000, 1_500_000)],
         "C17" => vec![part(tcb_checks::HostileSegments, 60_000, 4_000_000)],
-        "C14" => vec![part(codecs::DecodersNoPanic, 1_000_000, 20_000_000)],
+        "C14" => vec![part(codecs::DecodersNoPanic, 1_000_000, 20_000_000), part(ndl::NdlNoPanic, 60_000, 3_000_000)],
+        "C19" => vec![part(ndl::NdlRoundTrip, 40_000, 2_000_000)],
         "C15" => vec![part(c15_ipgen::IpGenHistories, 300_000, 6_000_000)],
         "C18" => vec![part(codecs::Codecs, 400_000, 8_000_000), part(codecs::CorruptionRejected, 400_000, 8_000_000)],
         _ => return None,
